@@ -3,7 +3,6 @@ package c17
 import (
 	"context"
 	"crypto/sha256"
-	"encoding/json"
 	"fmt"
 	"reflect"
 	"sort"
@@ -173,13 +172,9 @@ func attMeta(c *Case, op *Op) meta {
 
 // ---------------------------------------------------------------- exit / slashing pools
 
-func jsonID(v any) string {
-	b, err := json.Marshal(v)
-	if err != nil {
-		panic(err)
-	}
-	return idOf(string(b))
-}
+// Items are identified by their signature bytes: the tagged signature is a hash of every argument the
+// item was built from, and the pools never touch it.
+func sigID(s *common.BLSSignature) string { return fmt.Sprintf("%x", s[:6]) }
 
 func buildExit(a *Op) *phase0.SignedVoluntaryExit {
 	return &phase0.SignedVoluntaryExit{
@@ -230,7 +225,7 @@ func newOpsWorld(c *Case) (world, error) {
 		w.add = func(a *Op) error { return p.AddVoluntaryExit(ctx, buildExit(a)) }
 		w.all = func() (out []string) {
 			for _, x := range p.All() {
-				out = append(out, jsonID(x))
+				out = append(out, sigID(&x.Signature))
 			}
 			return
 		}
@@ -240,7 +235,7 @@ func newOpsWorld(c *Case) (world, error) {
 		w.add = func(a *Op) error { return p.AddProposerSlashing(ctx, buildPropSlashing(a)) }
 		w.all = func() (out []string) {
 			for _, x := range p.All() {
-				out = append(out, jsonID(x))
+				out = append(out, sigID(&x.SignedHeader1.Signature)+sigID(&x.SignedHeader2.Signature))
 			}
 			return
 		}
@@ -250,7 +245,7 @@ func newOpsWorld(c *Case) (world, error) {
 		w.add = func(a *Op) error { return p.AddAttesterSlashing(ctx, buildAttSlashing(a)) }
 		w.all = func() (out []string) {
 			for _, x := range p.All() {
-				out = append(out, jsonID(x))
+				out = append(out, sigID(&x.Attestation1.Signature)+sigID(&x.Attestation2.Signature))
 			}
 			return
 		}
